@@ -30,6 +30,11 @@ package interfaces
 //@   ensures result0 == CommitteeOf(self, ctx, blockHeight, prevBlockReferenceTime)
 //@   ensures SumMW(result0, len(result0)) < 2^64
 
+// A-SPI: a node's own member id is fixed (the same answer at every call)
+//@ iface interfaces.Membership.MyMemberId
+//@   pure
+//@   ensures true
+
 // The election scheduler SPI (the library's own TimerBasedElectionTrigger or the consumer's override): calls do not
 // touch protocol state. The timer-based implementation is verified separately (C19).
 //@ iface interfaces.ElectionScheduler.CalcTimeout
